@@ -1,0 +1,73 @@
+//! Verification hook H7 (cargo feature `_verif_hooks`, never enabled in production builds).
+//!
+//! The filesystem stores call [`point`] / [`fallible`] / [`acquire`] immediately before every lock
+//! acquisition, immediately after every lock release and immediately before every group of
+//! filesystem system calls. A model-checking harness registers a callback with [`set_callback`]
+//! and uses these calls to (a) park the calling thread until a scheduler lets it continue and
+//! (b) inject an I/O error into the step that follows. Without a registered callback every
+//! function here is a no-op.
+
+use std::path::{Path, PathBuf};
+use std::sync::OnceLock;
+
+pub use crate::fs_store::common::VerifTicket;
+
+/// The callback type: `(kind, path, object) -> inject_failure`.
+///
+/// `kind` names the step that follows (e.g. `"rename"`), `path` is the destination (or temporary)
+/// path the step works on and `object` is the address of the lock concerned (0 if none).
+pub type Callback = fn(kind: &'static str, path: &Path, object: usize) -> bool;
+
+static CALLBACK: OnceLock<Callback> = OnceLock::new();
+
+/// Registers the process-wide callback. Returns `false` if one was registered already.
+pub fn set_callback(cb: Callback) -> bool {
+	CALLBACK.set(cb).is_ok()
+}
+
+/// A scheduling point that cannot fail.
+#[inline]
+pub fn point(kind: &'static str, path: &Path, object: usize) {
+	if let Some(cb) = CALLBACK.get() {
+		let _ = cb(kind, path, object);
+	}
+}
+
+/// A scheduling point in front of a fallible filesystem step: returns an error (instead of letting
+/// the step run) if the callback asks for it.
+#[inline]
+pub fn fallible(kind: &'static str, path: &Path) -> std::io::Result<()> {
+	if let Some(cb) = CALLBACK.get() {
+		if cb(kind, path, 0) {
+			return Err(std::io::Error::new(
+				std::io::ErrorKind::Other,
+				format!("_verif_hooks: injected failure of step `{}`", kind),
+			));
+		}
+	}
+	Ok(())
+}
+
+/// RAII marker for a lock scope. It has to be declared *before* the lock guard it describes so
+/// that it is dropped *after* it: [`acquire`] reports `acquire_kind` before the lock is taken and
+/// the drop reports `release_kind` after the lock has been released.
+pub struct Held {
+	release_kind: &'static str,
+	path: PathBuf,
+	object: usize,
+}
+
+/// Reports an imminent lock acquisition, see [`Held`].
+#[inline]
+pub fn acquire(
+	acquire_kind: &'static str, release_kind: &'static str, path: &Path, object: usize,
+) -> Held {
+	point(acquire_kind, path, object);
+	Held { release_kind, path: path.to_path_buf(), object }
+}
+
+impl Drop for Held {
+	fn drop(&mut self) {
+		point(self.release_kind, &self.path, self.object);
+	}
+}
